@@ -12,6 +12,7 @@ import (
 	"strconv"
 	"strings"
 	"sync"
+	"sync/atomic"
 	"time"
 )
 
@@ -635,6 +636,46 @@ func ztCConcurrency(a, b int64, s string) string {
 	return r
 }
 
+func ztCAtomics(a, b int64, s string) string {
+	var n atomic.Int64
+	var flag atomic.Bool
+	var p atomic.Pointer[ztPoint]
+	var raw int32
+	var rw sync.RWMutex
+	shared := map[string]int64{}
+	var wg sync.WaitGroup
+	for i := int64(0); i < 2; i++ {
+		wg.Add(1)
+		go func(i int64) {
+			defer wg.Done()
+			n.Add(a + i)
+			atomic.AddInt32(&raw, int32(b))
+			if i == 1 {
+				flag.Store(true)
+				p.CompareAndSwap(nil, &ztPoint{X: a, Y: b})
+			}
+			rw.Lock()
+			shared[s] += i + 1
+			rw.Unlock()
+			rw.RLock()
+			_ = shared[s]
+			rw.RUnlock()
+		}(i)
+	}
+	wg.Wait()
+	old := n.Swap(5)
+	ok1 := n.CompareAndSwap(5, 6)
+	ok2 := n.CompareAndSwap(5, 7)
+	r := zti(old) + " " + zti(n.Load()) + ztb(ok1) + ztb(ok2) + " " + zti(int64(atomic.LoadInt32(&raw))) + ztb(flag.Load()) + " " + zti(shared[s])
+	if q := p.Load(); q != nil {
+		r += " " + zti(q.X+q.Y)
+	}
+	var v atomic.Uint32
+	v.Store(uint32(a))
+	r += " " + ztu(uint64(v.Add(7)))
+	return r
+}
+
 func ztCBytes(a, b int64, s string) string {
 	x := []byte(s)
 	y := append([]byte(nil), x...)
@@ -681,7 +722,7 @@ var ZtCases = []ZtCase{
 	{"Arith", ztCArith}, {"Shift", ztCShift}, {"Conv", ztCConv}, {"Cmp", ztCCmp}, {"DivUnsigned", ztCDivUnsigned},
 	{"String", ztCString}, {"Strings", ztCStrings}, {"Strconv", ztCStrconv}, {"Slices", ztCSlices}, {"Structs", ztCStructs},
 	{"Maps", ztCMaps}, {"Ifaces", ztCIfaces}, {"Closures", ztCClosures}, {"Defer", ztCDefer}, {"Control", ztCControl},
-	{"Generics", ztCGenerics}, {"Concurrency", ztCConcurrency}, {"Bytes", ztCBytes}, {"Time", ztCTime},
+	{"Generics", ztCGenerics}, {"Concurrency", ztCConcurrency}, {"Atomics", ztCAtomics}, {"Bytes", ztCBytes}, {"Time", ztCTime},
 }
 
 // ---------------------------------------------------------------- symbolic family (integers only)
